@@ -18,6 +18,10 @@ Case file (one case per line; both sides print one line per case):
        -> "P plain=<> sse2=<> disp=<>[ def=<>,<>,<>]"
   L <patternhex> <n> <chunking> <variant> <model flag>   long message = pattern (prime period) repeated to n bytes; one history
        -> "L md5=<hex> sha1=<hex> sha256=<hex> sha512=<hex>"   (model only when the flag is 1: the extracted model is slow)
+  G <map> <len> <keyhex> / H <algo> <map> <len> <chunks>   messages of about 2^32 bytes over sparse mappings (huge_harness.cpp, -O2,
+                                           no sanitizer, own process); judged against siphash_ref.hpp / hashlib, not the model
+  T <patternhex> <n> <chunks> <keyhex>     thread stage (threads_harness.cpp, ASan build and TSan build): alone, interleaved with
+                                           the next case on one thread, and on 4-8 threads at once
   Z <n> <pre> <algos>                      n zero bytes from an anonymous mapping: <pre> one-byte calls, then ONE process() call
        -> "Z md5=<hex> ..."                 (thorough tier, own harness process; never run on the model)
 A D line may carry a 4th token: the variant seed from which the harness derives, per call, the constructor / process()
@@ -71,21 +75,103 @@ try:
 except RuntimeError as e:
     translator_error = str(e)
 
-# harness first: the one huge single-call case (Z) runs in its own process while Coq re-checks the theorems
-exe, log = ck.build_cpp("c14_harness", ["harness/C14/digest_harness.cpp", "harness/C14/compress_md5.cpp", "harness/C14/compress_sha1.cpp",
-                                        "harness/C14/compress_sha256.cpp", "harness/C14/compress_sha512.cpp"],
-                        repo_sources=["tlx/string/hexdump.cpp"])
-# one single process() call of 2^29 bytes (a 32-bit bit-length computation overflows exactly there), also after one
+# harnesses first (four builds side by side): the long-running cases (Z: one 2^29-byte call; G/H: messages of 2^32 bytes
+# and more) run in their own processes while Coq re-checks the theorems and the main stage runs
+import threading
+_builds = {}
+
+
+def _build(tag, name, sources, flags, repo_sources):
+    _builds[tag] = ck.build_cpp(name, sources, flags=flags, repo_sources=repo_sources)
+
+
+DIGEST_SRC = ["tlx/digest/md5.cpp", "tlx/digest/sha1.cpp", "tlx/digest/sha256.cpp", "tlx/digest/sha512.cpp", "tlx/string/hexdump.cpp"]
+_bt = [threading.Thread(target=_build, args=a_) for a_ in [
+    ("main", "c14_harness", ["harness/C14/digest_harness.cpp", "harness/C14/compress_md5.cpp", "harness/C14/compress_sha1.cpp",
+                             "harness/C14/compress_sha256.cpp", "harness/C14/compress_sha512.cpp"], None, ["tlx/string/hexdump.cpp"]),
+    ("huge", "c14_huge", ["harness/C14/huge_harness.cpp"], verif.CXXFLAGS_FAST, DIGEST_SRC),
+    ("tasan", "c14_threads_asan", ["harness/C14/threads_harness.cpp"], None, DIGEST_SRC),
+    ("ttsan", "c14_threads_tsan", ["harness/C14/threads_harness.cpp"], ["-std=c++17", "-O1", "-g", "-fsanitize=thread"], DIGEST_SRC)]]
+for t_ in _bt: t_.start()
+for t_ in _bt: t_.join()
+exe, log = _builds["main"]
+hexe, hlog = _builds["huge"]
+replay_case = json.load(open(ck.replay))["case"] if ck.replay else None
+replay_obj = json.load(open(ck.replay)) if ck.replay else None
+
+# Z: one single process() call of 2^29 bytes (a 32-bit bit-length computation overflows exactly there), also after one
 # buffered byte. quick: one algorithm picked by the seed; thorough: all four, and the buffered variant.
 zcases = []
 if not ck.replay:
     zcases = ["Z 536870912 0 md5,sha1,sha256,sha512", "Z 536870913 1 md5,sha256"] if ck.thorough() else \
              ["Z 536870912 0 %s" % ["md5", "sha1", "sha256", "sha512"][ck.seed % 4]]
-elif json.load(open(ck.replay))["case"].startswith("Z"):
-    zcases = [json.load(open(ck.replay))["case"]]
+elif replay_case.startswith("Z"):
+    zcases = [replay_case]
 zfile = os.path.join(ck.scratch, "zcases.txt")
 open(zfile, "w").write("".join(c + "\n" for c in zcases))
 zproc = subprocess.Popen([exe, zfile], stdout=subprocess.PIPE, stderr=subprocess.STDOUT, universal_newlines=True) if (zcases and exe) else None
+
+# G/H: huge messages over sparse read-only mappings ('z' all zero, 'n' non-zero pages at the start and around 2^32), see
+# harness/C14/huge_harness.cpp. SipHash: the block count / tail index must use all 64 bits of len; digests: byte and bit
+# counters beyond 2^32 bytes. quick: SipHash 2^32+13 and one digest picked by the seed; thorough: everything.
+G32 = 1 << 32
+_hr = verif.SplitMix64(ck.seed * 7919 + 17)
+_hkey = bytes(_hr.below(256) for _ in range(16)).hex()
+
+
+def _hchunks(n):
+    c1 = 1 + _hr.below(63); c2 = (1 << 31) + _hr.below(1000); c3 = (1 << 30) + 64 * _hr.below(1000)
+    return "%d,%d,%d,%d" % (c1, c2, c3, n - c1 - c2 - c3)
+
+
+hcases = []
+if not ck.replay:
+    if ck.thorough():
+        hcases = ["G z %d %s" % (G32 - 3, _hkey), "G z %d %s" % (G32, _hkey), "G z %d %s" % (G32 + 13, _hkey),
+                  "G n %d %s" % (G32 - 3, _hkey), "G n %d %s" % (G32 + 13, _hkey)]
+        hcases += ["H %s %s %d %s" % (a_, "n" if i_ % 2 == 0 else "z", G32 + 13 + i_, _hchunks(G32 + 13 + i_)) for i_, a_ in enumerate(ALGOS)]
+    else:
+        a_ = ALGOS[(ck.seed + 1) % 4]
+        hcases = ["G n %d %s" % (G32 + 13, _hkey), "H %s n %d %s" % (a_, G32 + 13, _hchunks(G32 + 13))]
+elif replay_case[:2] in ("G ", "H "):
+    hcases = [replay_case]
+hfile = os.path.join(ck.scratch, "hcases.txt")
+open(hfile, "w").write("".join(c + "\n" for c in hcases))
+hproc = subprocess.Popen([hexe, hfile], stdout=subprocess.PIPE, stderr=subprocess.STDOUT, universal_newlines=True) if (hcases and hexe) else None
+
+
+def huge_content(mapping, n):
+    """the bytes of the first n bytes of mapping 'z' / 'n', in pieces"""
+    if mapping == "z":
+        segs = [(0, n, None)]
+    else:
+        segs = [(0, 4096, bytes((7 * i + 1) & 255 for i in range(4096))), (4096, G32 - 2048, None),
+                (G32 - 2048, G32 + 2048, bytes((13 * j + 5) & 255 for j in range(4096))), (G32 + 2048, G32 + 65536, None)]
+    zero = bytes(1 << 24)
+    for lo, hi, data in segs:
+        hi = min(hi, n)
+        if hi <= lo: continue
+        if data is not None:
+            yield data[:hi - lo]
+        else:
+            left = hi - lo
+            while left > 0:
+                k = min(left, len(zero)); yield zero[:k] if k < len(zero) else zero; left -= k
+
+
+hexpect = {}
+
+
+def _hashlib_huge():
+    for c in hcases:
+        t = c.split()
+        if t[0] == "H":
+            h = hashlib.new(t[1])
+            for piece in huge_content(t[2], int(t[3])): h.update(piece)
+            hexpect[c] = "H %s=%s" % (t[1], h.hexdigest())
+
+
+_hth = threading.Thread(target=_hashlib_huge); _hth.start()      # hashlib releases the GIL on large updates
 
 pr = ck.prove() if translator_error is None else None
 
@@ -315,7 +401,7 @@ if ck.replay:
 else:
     cases = corpus + gen_cases()
     ncorpus = len(corpus)
-if ck.replay and cases[0].startswith("Z"):
+if ck.replay and (cases[0][:2] in ("Z ", "G ", "H ") or cases[0].startswith("TSTAGE")):
     cases = []
 casefile = os.path.join(ck.scratch, "cases.txt")
 open(casefile, "w").write("".join(c + "\n" for c in cases))
@@ -323,13 +409,14 @@ open(casefile, "w").write("".join(c + "\n" for c in cases))
 # ------------------------------------------------------------------------------ run both sides
 found = False
 drv, dlog = ck.ocaml_driver("C14")
-stats = {"D": 0, "S": 0, "C": 0, "P": 0, "L": 0, "Z": 0}
+stats = {"D": 0, "S": 0, "C": 0, "P": 0, "L": 0, "Z": 0, "G": 0, "H": 0, "T": 0}
 hist = {}
 distinct = set()
 samples = []
 
 
 string_obj_reported = False
+ref_validated = 0
 
 
 def string_object_only(a, want):
@@ -457,6 +544,7 @@ else:
             elif b is not None and wspec is not None and sp != wspec:
                 ck.violation("extracted Coq spec differs from the standard's reference implementation: spec=%s reference=%s" % (sp[:160], wspec[:160]),
                              {"theorem_or_correspondence": "H_spec / sip_spec validation against hashlib", "case": c, "spec": sp, "reference": wspec}, no_input=True)
+            if kind == "P" and b is not None and a == b and a == want: ref_validated += 1
             if ck.violations >= 3: break
         pick = [0, 4]
         for kind in ("D", "S", "C", "P"):
@@ -464,6 +552,109 @@ else:
         samples = [{"case": cases[i][:400], "result": impl[i][:400]} for i in pick if i < len(impl)]
     if drv is None and not found:
         ck.violation("extracted model/driver does not build", {"correspondence": "ocaml/C14_driver.ml", "log": dlog[-2500:]}, no_input=True)
+
+# ------------------------------------------------------------------------------ huge-message stage (G / H)
+huge_info = {"cases": list(hcases), "reference": "harness/C14/siphash_ref.hpp (C++, from the paper) for SipHash; Python hashlib for the digests",
+             "reference_validated_against_model_on": ref_validated}
+if hcases:
+    if hexe is None:
+        ck.violation("huge-message harness does not compile against /repo", {"correspondence": "harness/C14/huge_harness.cpp", "log": hlog[-2500:]}, no_input=True)
+    else:
+        try:
+            ho, _ = hproc.communicate(timeout=2400)
+        except subprocess.TimeoutExpired:
+            hproc.kill(); ho = ""
+        _hth.join()
+        hl = [l for l in ho.splitlines() if l[:2] in ("G ", "H ")]
+        if hproc.returncode != 0 or len(hl) != len(hcases):
+            ck.violation("huge-message harness failed (rc=%s): %s" % (hproc.returncode, ho[-300:]), {"correspondence": "harness/C14/huge_harness.cpp", "log_tail": ho[-2000:]}, no_input=True)
+        else:
+            for c, l in zip(hcases, hl):
+                stats[c[0]] = stats.get(c[0], 0) + 1
+                distinct.add(c)
+                if c[0] == "G":
+                    f = dict(x.split("=") for x in l.split()[1:])
+                    if not (f.get("plain") == f.get("sse2") == f.get("disp") == f.get("ref")):
+                        found = True
+                        ck.violation("SipHash of a message of %s bytes (>= 2^32 - 3) differs from SipHash-2-4 (reference validated against the extracted Coq spec on %d cases of this run): %s" % (c.split()[2], ref_validated, l),
+                                     {"case": c, "impl": l, "replay_cmd": "bin/check C14 --replay <this file>"})
+                else:
+                    if l != hexpect.get(c):
+                        found = True
+                        ck.violation("digest of a message of %s bytes (> 2^32) streamed in chunks differs from hashlib: impl=%s want=%s" % (c.split()[3], l, hexpect.get(c)),
+                                     {"case": c, "impl": l, "standard": hexpect.get(c), "replay_cmd": "bin/check C14 --replay <this file>"})
+            samples.append({"case": hcases[0], "result": hl[0]})
+            if ref_validated == 0 and not ck.replay and any(c[0] == "G" for c in hcases):
+                ck.violation("the SipHash reference of the huge stage was not validated against the model in this run", {"correspondence": "siphash_ref.hpp vs extracted sip_spec"}, no_input=True)
+
+# ------------------------------------------------------------------------------ concurrency / object-independence stage (T)
+def gen_tcases():
+    r = verif.SplitMix64(ck.seed * 104729 + 5)
+    out = []
+    sizes_pool = [0, 1, 55, 56, 63, 64, 65, 111, 112, 127, 128, 129, 1000, 5000, 20000, 60000, 150000, 200000, 262144]
+    for i in range(48 if ck.thorough() else 32):
+        n = r.choice(sizes_pool) if r.chance(2, 3) else r.below(70000)
+        pat = bytes(r.below(256) for _ in range(251)).hex()
+        cuts = sorted(r.below(n + 1) for _ in range(r.below(5)))
+        pts = [0] + cuts + [n]
+        out.append("T %s %d %s %s" % (pat, n, ",".join(str(pts[j + 1] - pts[j]) for j in range(len(pts) - 1)), bytes(r.below(256) for _ in range(16)).hex()))
+    return out
+
+
+thread_info = {}
+tcases = []
+if not ck.replay:
+    tcases = gen_tcases()
+elif replay_case.startswith("TSTAGE"):
+    tcases = replay_obj.get("t_cases", [])
+if tcases:
+    tfile = os.path.join(ck.scratch, "tcases.txt")
+    open(tfile, "w").write("".join(c + "\n" for c in tcases))
+    nthreads = 4 + (ck.seed % 5)                                  # 4..8 real threads
+    tdesc = "TSTAGE seed=%d threads=%d cases=%d" % (ck.seed, nthreads, len(tcases))
+    for tag, rounds, envx in (("tasan", 24 if ck.thorough() else 12, {}), ("ttsan", 4, {"TSAN_OPTIONS": "halt_on_error=1 second_deadlock_stack=1"})):
+        texe, tlog = _builds[tag]
+        if texe is None:
+            ck.violation("thread-stage harness (%s) does not compile against /repo" % tag, {"correspondence": "harness/C14/threads_harness.cpp", "log": tlog[-2500:]}, no_input=True)
+            continue
+        rc_t, to = verif.sh([texe, tfile, str(nthreads), str(rounds)], timeout=1200, env=dict(os.environ, **envx))
+        tl = [l for l in to.splitlines() if l.startswith("T ")]
+        verdicts = [l for l in to.splitlines() if l[:2] in ("I ", "M ")]
+        thread_info[tag] = {"rc": rc_t, "verdicts": verdicts, "threads": nthreads, "rounds": rounds}
+        rep = {"case": tdesc, "t_cases": tcases, "build": tag, "replay_cmd": "bin/check C14 --replay <this file>"}
+        if "ThreadSanitizer" in to:
+            found = True
+            m_ = [l.strip() for l in to.splitlines() if "ThreadSanitizer:" in l or l.strip().startswith("#0") or l.strip().startswith("#1 ")]
+            ck.violation("unrelated digest objects / siphash calls used on %d threads at once: ThreadSanitizer reports %s" % (nthreads, " | ".join(m_[:4])[:400]),
+                         dict(rep, log_tail=to[-3000:]))
+            continue
+        if rc_t != 0 and not verdicts:
+            found = True
+            ck.violation("thread-stage harness (%s) aborts (rc=%d): %s" % (tag, rc_t, to[-300:]), dict(rep, log_tail=to[-3000:]))
+            continue
+        # single-threaded baseline against the standards
+        for c, l in zip(tcases, tl):
+            t = c.split(); msg = long_msg(t[1], int(t[2])); f = dict(x.split("=") for x in l.split()[1:])
+            ok = all(f.get(a_) == hashlib.new(a_, msg).hexdigest() for a_ in ALGOS)
+            sips = f.get("sip", "").split(",")
+            ok = ok and len(set(sips + [f.get("ref")])) == 1 and (len(msg) > 20000 or sips[0] == "%016x" % sip24(bytes.fromhex(t[4]), msg))
+            if not ok:
+                found = True
+                ck.violation("single-threaded result of a thread-stage case differs from the standard: %s" % l[:300], {"case": "L %s %s %s 0 0" % (t[1], t[2], t[3]), "impl": l})
+                break
+        if tag == "tasan":
+            stats["T"] = len(tl)
+            for c in tcases: distinct.add(c)
+        for v in verdicts:
+            if " FAIL" in v:
+                found = True
+                what = "two objects of one class fed alternately on ONE thread influence each other" if v.startswith("I ") else \
+                       "unrelated objects used on %d threads at once give digests different from the ones they give alone" % nthreads
+                ck.violation(what + ": " + v[:400], dict(rep, verdict=v))
+        if len(verdicts) != 2 and rc_t == 0:
+            ck.violation("thread-stage harness (%s) printed no verdicts" % tag, {"correspondence": "harness/C14/threads_harness.cpp", "log_tail": to[-1500:]}, no_input=True)
+    if thread_info.get("tasan", {}).get("verdicts"):
+        samples.append({"case": tdesc, "result": " ; ".join(thread_info["tasan"]["verdicts"])})
 
 coqchk = None
 if ck.thorough() and pr is not None and pr["ok"] and not ck.replay:
@@ -481,12 +672,14 @@ if pr is not None and not pr["ok"]:
     ck.proof_broken(found)
 
 ck.finish({
-    "evaluations": len(cases),
+    "evaluations": len(cases) + len(hcases) + len(tcases),
     "distinct_nontrivial": len(distinct),
-    "rule": "distinct case lines that are non-trivial: D (message x explicit chunkings; all four digests, raw/hex/HEX, helpers with every argument type, constructor/process overloads, argument types and mid-stream copies chosen from the case's variant seed) counts if some chunking leaves a partial block in buf_ between two process() calls; S (all 2- or 3-splits enumerated inside the harness) if |msg| >= 2; C (compression function alone on an arbitrary chaining state); P (siphash_plain, siphash_sse2, dispatching siphash at a given message/key misalignment) if |msg| >= 1; L (long message, one process() call with many whole blocks, curlen_ 0 or not before it; lengths around 2^16 and 2^20; model only where flagged) and Z (2^29 zero bytes in one call, thorough tier) always. Every implementation line is compared with Python hashlib / an independent SipHash-2-4, with the extracted Coq model, and the extracted Coq spec with hashlib.",
+    "rule": "distinct case lines that are non-trivial: D (message x explicit chunkings; all four digests, raw/hex/HEX, helpers with every argument type, constructor/process overloads, argument types and mid-stream copies chosen from the case's variant seed) counts if some chunking leaves a partial block in buf_ between two process() calls; S (all 2- or 3-splits enumerated inside the harness) if |msg| >= 2; C (compression function alone on an arbitrary chaining state); P (siphash_plain, siphash_sse2, dispatching siphash at a given message/key misalignment) if |msg| >= 1; L (long message, one process() call with many whole blocks, curlen_ 0 or not before it; lengths around 2^16 and 2^20; model only where flagged) and Z (2^29 zero bytes in one call) always; G / H (SipHash resp. streamed digests over sparse mappings of 2^32-3 .. 2^32+16 bytes, judged against siphash_ref.hpp -- itself compared with the extracted Coq spec on every P case of the run -- resp. hashlib) always; T (a message + chunking that is hashed alone, interleaved with its neighbour on one thread, and on 4-8 threads at once under ASan and under TSan) always. Every implementation line is compared with Python hashlib / an independent SipHash-2-4, with the extracted Coq model, and the extracted Coq spec with hashlib.",
     "samples": samples,
     "input_distribution": dict(stats, **hist),
     "api_surface": API_SURFACE,
+    "huge_cases": huge_info,
+    "thread_stage": thread_info,
     "special_digest_bytes": special,
     "tables_translated": sorted(getattr(ck, "c14_tables", {}).keys()),
     "coqchk": coqchk if coqchk is not None else "not run in this tier",
